@@ -1715,6 +1715,274 @@ func vAmpSetsCase(t *testing.T, r *vrng, ci int, backend string, mk VMakeDB) *vC
 	return c
 }
 
+// ---- mixed-state stream: every entry point on htlc maps holding all legal states ----
+//
+// For every invoice kind a scripted prefix brings the invoice's htlc map into a
+// state that holds records in as many different states as the kind allows
+// (canceled + accepted, canceled + settled, AMP: canceled + settled + accepted).
+// Then ONE entry point X of the registry is invoked, and a fixed suffix invokes
+// all of them again (replays of every htlc, SettleHodlInvoice, set timers,
+// fresh htlcs, CancelInvoice).  The prefixes x entry points are ENUMERATED, not
+// sampled; the seed only varies amounts, heights, deltas and circuit keys.
+
+var vMixedPrefixes = []string{"hodl_mpp_accepted", "hodl_mpp_open", "hodl_legacy_accepted",
+	"mpp_settled", "mpp_open", "legacy_settled", "keysend_settled", "keysend_hold_accepted",
+	"amp_three_states", "amp_three_states_two_canceled"}
+
+var vMixedEntries = []string{"none", "notify_fresh_complete", "notify_fresh_partial",
+	"replay_canceled", "settle_hodl", "cancel_force", "cancel_noforce", "timers_all", "restart"}
+
+func vMixedCase(t *testing.T, r *vrng, ci int, backend string, mk VMakeDB, pi, xi int) *vCase {
+	const npre, nextra, naddr = 5, 1, 3
+	u := vNewUniverse(r, npre, nextra, naddr, ci)
+	rd := int32(vPick(r, []int{4, 4, 10, 0}))
+	pname := vMixedPrefixes[pi]
+	keysend := pname == "keysend_settled" || pname == "keysend_hold_accepted"
+	kshold := pname == "keysend_hold_accepted"
+	cfg := RegistryConfig{FinalCltvRejectDelta: rd, AcceptKeySend: keysend}
+	if kshold {
+		cfg.KeysendHoldTime = time.Minute
+	}
+	idb, clk := mk(t)
+	run := &vRun{t: t, u: u, hodl: make(chan interface{}, 256), idb: idb, clk: clk, cfg: cfg}
+	run.reg = vNewRegistryOn(t, idb, clk, cfg)
+	c := &vCase{Kind: "mixed", Scn: pname + "/" + vMixedEntries[xi], Backend: backend, Case: ci,
+		Cfg: map[string]any{"rd": rd, "keysend": keysend, "kshold": kshold, "amp": false,
+			"kv": backend == "kv"}}
+	baseHeight := int32(vPick(r, []int{100, 700000, 1<<31 - 61}))
+	value := vPick(r, []uint64{1000, 1000, 2501, 100000, 1 << 60})
+	delta := int32(vPick(r, []int{4, 9, 40, 3}))
+	margin := delta
+	if rd > margin {
+		margin = rd
+	}
+	exp := func() uint32 { return uint32(baseHeight + margin + vPick(r, []int32{0, 1, 20})) }
+	key := 1
+	isAmp := pi >= 8
+	one := 1
+	var inv *vInvoice
+	invHash := 1
+	switch pname {
+	case "hodl_mpp_accepted", "hodl_mpp_open":
+		inv = &vInvoice{Hash: 1, Value: value, Delta: delta, Hodl: true, Addr: 1, AddrReq: true, Kind: "hodl_mpp"}
+	case "hodl_legacy_accepted":
+		inv = &vInvoice{Hash: 1, Value: value, Delta: delta, Hodl: true, Addr: 1, Kind: "hodl"}
+	case "mpp_settled", "mpp_open":
+		inv = &vInvoice{Hash: 1, Value: value, Delta: delta, Pre: &one, Addr: 1, AddrReq: true, Kind: "mpp"}
+	case "legacy_settled", "keysend_settled":
+		inv = &vInvoice{Hash: 1, Value: value, Delta: delta, Pre: &one, Addr: 1, Kind: "regular"}
+	case "keysend_hold_accepted":
+		invHash = 2 // just-in-time hold invoice for hash 2
+	default:
+		invHash = 3
+		inv = &vInvoice{Hash: 3, Value: value, Delta: delta, Amp: true, Addr: 1, Kind: "amp_invoice"}
+	}
+	mkH := func(h *vHtlc) *vHtlc {
+		h.Key = key
+		key++
+		if h.Expiry == 0 {
+			h.Expiry = exp()
+		}
+		return h
+	}
+	mpp := func(amt, total uint64) *vHtlc {
+		return mkH(&vHtlc{Hash: invHash, Amt: amt, Mpp: []int64{1, int64(total)}})
+	}
+	legacy := func(amt uint64) *vHtlc { return mkH(&vHtlc{Hash: invHash, Amt: amt}) }
+	ks := func(amt uint64) *vHtlc { return mkH(&vHtlc{Hash: invHash, Amt: amt, Ks: invHash}) }
+
+	// AMP helpers
+	groups := map[int][]*vHtlc{}
+	nextSid := 1
+	newRoot := func() *amp.SeedSharer {
+		var root amp.Share
+		copy(root[:], r.bytes(32))
+		root[0] |= 1
+		return amp.SeedSharerFromRoot(&root)
+	}
+	type aset struct {
+		sid int
+		id  [32]byte
+	}
+	newSet := func() *aset {
+		st := &aset{sid: nextSid}
+		nextSid++
+		copy(st.id[:], r.bytes(32))
+		st.id[0] |= 1
+		u.setIDs[st.id] = st.sid
+		return st
+	}
+	shard := func(st *aset, child *amp.Child, idx uint32, amt, total uint64) *vHtlc {
+		h := mkH(&vHtlc{Hash: u.lookupHashID(child.Hash), Amt: amt,
+			Mpp: []int64{1, int64(total)}, Amp: true, SetID: st.sid,
+			Share: u.shareID(child.Share), Idx: idx,
+			ShareHex: hex.EncodeToString(child.Share[:]),
+			ampRec: record.NewAMP([32]byte(child.Share), st.id, idx)})
+		groups[st.sid] = append(groups[st.sid], h)
+		return h
+	}
+	two := func(st *aset, total uint64) (*vHtlc, *vHtlc) {
+		l, rr, err := newRoot().Split()
+		if err != nil {
+			t.Fatal(err)
+		}
+		return shard(st, l.Child(0), 0, total-total/2, total), shard(st, rr.Child(1), 1, total/2, total)
+	}
+	again := func(st *aset, h *vHtlc) *vHtlc {
+		hh := *h
+		hh.Key = key
+		key++
+		groups[st.sid] = append(groups[st.sid], &hh)
+		return &hh
+	}
+
+	var script []func()
+	var sent, fresh []*vHtlc
+	var canceled *vHtlc
+	send := func(h *vHtlc) {
+		script = append(script, func() { run.notify(h, baseHeight); sent = append(sent, h) })
+	}
+	replayAll := func() {
+		script = append(script, func() {
+			for _, h := range sent {
+				run.notify(h, baseHeight)
+			}
+		})
+	}
+	timeout := func(h *vHtlc) { script = append(script, func() { run.timeout(h) }) }
+	timersAll := func() {
+		script = append(script, func() {
+			for _, h := range sent {
+				run.timeout(h)
+			}
+		})
+	}
+	settle := func() {
+		pid := invHash
+		if isAmp {
+			pid = 1
+		}
+		script = append(script, func() { run.settle(pid) })
+	}
+	cancelInv := func(force bool) { script = append(script, func() { run.cancel(invHash, force) }) }
+	half, rest := value/2, value-value/2
+
+	// --- prefix ---
+	if inv != nil {
+		script = append(script, func() { run.add(inv) })
+	}
+	switch pname {
+	case "hodl_mpp_accepted", "mpp_settled":
+		a, b, cc := mpp(half, value), mpp(half, value), mpp(rest, value)
+		send(a)
+		timeout(a)
+		send(b)
+		send(cc)
+		canceled = a
+		fresh = []*vHtlc{mpp(value, value), mpp(half, value), mpp(rest, value)}
+	case "hodl_mpp_open", "mpp_open":
+		a, b := mpp(half, value), mpp(half, value)
+		send(a)
+		timeout(a)
+		send(b)
+		canceled = a
+		fresh = []*vHtlc{mpp(rest, value), mpp(half, value), mpp(rest, value)}
+	case "hodl_legacy_accepted", "legacy_settled":
+		a, l := mpp(half, value), legacy(value)
+		send(a)
+		timeout(a)
+		send(l)
+		canceled = a
+		fresh = []*vHtlc{legacy(value + 1), mpp(half, value), legacy(value)}
+	case "keysend_settled":
+		a, k := mpp(half, value), ks(value)
+		send(a)
+		timeout(a)
+		send(k)
+		canceled = a
+		fresh = []*vHtlc{ks(value + 1), mpp(half, value), ks(value)}
+	case "keysend_hold_accepted":
+		send(ks(value))
+		send(ks(value + 1))
+		fresh = []*vHtlc{ks(value), legacy(value), ks(value + 2)}
+	default:
+		s1, s2 := newSet(), newSet()
+		a, b := two(s1, value)
+		a2 := again(s1, a)
+		cA, cB := two(s2, value)
+		send(a)
+		timeout(a)
+		send(a2)
+		send(b)  // set 1 settles: a canceled, a2 + b settled
+		send(cA) // set 2 held
+		canceled = a
+		if pname == "amp_three_states_two_canceled" {
+			s3 := newSet()
+			d, _ := two(s3, value)
+			send(d)
+			timeout(d)
+		}
+		s4 := newSet()
+		f1, f2 := two(s4, value)
+		fresh = []*vHtlc{cB, f1, f2}
+	}
+	// --- the entry point under test ---
+	switch vMixedEntries[xi] {
+	case "notify_fresh_complete":
+		send(fresh[0])
+	case "notify_fresh_partial":
+		send(fresh[1])
+	case "replay_canceled":
+		if canceled != nil {
+			h := canceled
+			script = append(script, func() { run.notify(h, baseHeight+int32(r.intn(3))) })
+		}
+	case "settle_hodl":
+		settle()
+	case "cancel_force":
+		cancelInv(true)
+	case "cancel_noforce":
+		cancelInv(false)
+	case "timers_all":
+		timersAll()
+	case "restart":
+		script = append(script, func() { run.restart(sent, baseHeight); c.Restarts++ })
+	}
+	// --- suffix: every entry point once more on the resulting state ---
+	replayAll()
+	settle()
+	replayAll()
+	timersAll()
+	send(fresh[2])
+	send(fresh[1])
+	cancelInv(true)
+	replayAll()
+
+	for sid := 1; sid < nextSid; sid++ {
+		if g := groups[sid]; len(g) > 0 {
+			u.ampOracle(g)
+		}
+	}
+	for i := 0; i < npre; i++ {
+		c.Tbl = append(c.Tbl, [2]int{i + 1, i + 1})
+	}
+	for p, id := range u.preID {
+		if id >= 10 {
+			c.Tbl = append(c.Tbl, [2]int{id, u.anyHashID(sha256.Sum256(p[:]))})
+		}
+	}
+	sort.Slice(c.Tbl, func(i, j int) bool { return c.Tbl[i][0] < c.Tbl[j][0] })
+	c.AmpTbl = u.ampTbl
+	for _, f := range script {
+		f()
+	}
+	c.Ops = run.ops
+	for _, h := range u.hash {
+		c.HashHex = append(c.HashHex, hex.EncodeToString(h[:]))
+	}
+	return c
+}
+
 // VerifRunRegistry is the driver; makeKV comes from the external test file
 // (package invoices_test) because channeldb imports this package.
 func VerifRunRegistry(t *testing.T, makeKV VMakeDB) {
@@ -1763,6 +2031,31 @@ func VerifRunRegistry(t *testing.T, makeKV VMakeDB) {
 			t.Run("", func(t *testing.T) {
 				out.emit(vAmpCase(t, r, 2*ncases+2*ci+bi, b.name, b.mk))
 			})
+		}
+	}
+	// mixed-state stream: prefixes x entry points enumerated (quick: every prefix
+	// with every entry point; thorough: 6 seeded variations of each)
+	nvar := vCases(1, 6)
+	if v := vEnvInt("VERIF_MIXED_VARS", -1); v >= 0 {
+		nvar = int(v)
+	}
+	mi := 0
+	for v := 0; v < nvar; v++ {
+		for pi := range vMixedPrefixes {
+			for xi := range vMixedEntries {
+				for bi, b := range backends {
+					if only != "" && only != b.name {
+						continue
+					}
+					r := master.fork(uint64(3000000 + mi))
+					pi, xi := pi, xi
+					t.Run("", func(t *testing.T) {
+						out.emit(vMixedCase(t, r, 2*ncases+2*namp+2*nsets+2*mi+bi, b.name,
+							b.mk, pi, xi))
+					})
+				}
+				mi++
+			}
 		}
 	}
 	for ci := 0; ci < nsets; ci++ {
